@@ -366,11 +366,16 @@ theorem exists_edgesFrom (g : Graph) (a b : String) (k : EKey) (x : EdgeRec) :
     node has the lag of the old one; nothing is asked of the plain class).  The node map loses `a` and gains `b` with
     the freshly built record; an edge is in the new graph iff it avoids `a` and is an old edge, or is the copy
     `(x, b)` of an old `(x, a)`, or the copy `(b, y)` of an old `(a, y)` — same record (type, metadata), same side. -/
-theorem rename_ok_spec {g g' : Graph} (hw : WF g) {a b : String} {r : NodeRec} (hr : g.nodes[a]? = some r)
+theorem rename_ok_full {g g' : Graph} (hw : WF g) {a b : String} {r : NodeRec} (hr : g.nodes[a]? = some r)
     {vt? : Option VType} {m? : Option Meta} (h : replaceNodeBase g a (some b) vt? m? = .ok g')
     (hlag : g.cls = .ts → ∀ rb, mkNode g.cls b (vt?.getD r.vtype) (m?.getD r.md) = .ok rb → rb.lag = r.lag) :
-    ∃ rb, mkNode g.cls b (vt?.getD r.vtype) (m?.getD r.md) = .ok rb ∧ b ∉ g.nodes ∧ WF g' ∧
-      g'.cls = g.cls ∧ g'.gmeta = g.gmeta ∧ g'.nodes = (g.nodes.insert b rb).erase a ∧
+    ∃ (rb : NodeRec) (g2 g3 : Graph), mkNode g.cls b (vt?.getD r.vtype) (m?.getD r.md) = .ok rb ∧ b ∉ g.nodes ∧
+      (copyEdges b true (g.insNode b rb) ((g.insNode b rb).edgesTo a) = .ok g2 ∧
+        copyEdges b false g2 (g2.edgesFrom a) = .ok g3 ∧ g' = g3.delNodeRaw a ∧ WF g2 ∧
+        g2.nodes = (g.insNode b rb).nodes ∧
+        ∀ (k : EKey) (x : EdgeRec), g2.edges[k]? = some x ↔
+          (g.edges[k]? = some x ∨ (k.2 = b ∧ g.edges[(k.1, a)]? = some x))) ∧
+      WF g' ∧ g'.cls = g.cls ∧ g'.gmeta = g.gmeta ∧ g'.nodes = (g.nodes.insert b rb).erase a ∧
       ∀ (k : EKey) (x : EdgeRec), g'.edges[k]? = some x ↔
         k.1 ≠ a ∧ k.2 ≠ a ∧ (g.edges[k]? = some x ∨ (k.2 = b ∧ g.edges[(k.1, a)]? = some x) ∨
           (k.1 = b ∧ g.edges[(a, k.2)]? = some x)) := by
@@ -448,7 +453,7 @@ theorem rename_ok_spec {g g' : Graph} (hw : WF g) {a b : String} {r : NodeRec} (
     rw [C03.lagOf_congr hn2, C03.lagOf_congr hn2, hlag1 _ (hne_of_mem _ hm), hlagb hcg, ← h2]
     exact hw.tsTime hcg k.1 k.2 hmem
   obtain ⟨hw3, hc3, hm3, hn3, he3⟩ := copyEdges_ok_spec b false _ _ _ hw2 hbmem2 hL2 hor2 hg3
-  refine ⟨rb, hrb, hnb, wf_delNodeRaw a hw3, ?_, ?_, ?_, fun k x => ?_⟩
+  refine ⟨rb, g2, g3, hrb, hnb, ⟨hg2, hg3, rfl, hw2, hn2, he2'⟩, wf_delNodeRaw a hw3, ?_, ?_, ?_, fun k x => ?_⟩
   · rw [delNodeRaw_cls, hc3, hc2]; rfl
   · rw [delNodeRaw_gmeta, hm3, hm2]; rfl
   · rw [delNodeRaw_nodes, hn3, hn2]; rfl
@@ -476,6 +481,17 @@ theorem rename_ok_spec {g g' : Graph} (hw : WF g) {a b : String} {r : NodeRec} (
         · exact .inl (.inl h1)
         · exact .inl (.inr h1)
         · exact .inr ⟨hk1, .inl h1⟩
+
+theorem rename_ok_spec {g g' : Graph} (hw : WF g) {a b : String} {r : NodeRec} (hr : g.nodes[a]? = some r)
+    {vt? : Option VType} {m? : Option Meta} (h : replaceNodeBase g a (some b) vt? m? = .ok g')
+    (hlag : g.cls = .ts → ∀ rb, mkNode g.cls b (vt?.getD r.vtype) (m?.getD r.md) = .ok rb → rb.lag = r.lag) :
+    ∃ rb, mkNode g.cls b (vt?.getD r.vtype) (m?.getD r.md) = .ok rb ∧ b ∉ g.nodes ∧ WF g' ∧
+      g'.cls = g.cls ∧ g'.gmeta = g.gmeta ∧ g'.nodes = (g.nodes.insert b rb).erase a ∧
+      ∀ (k : EKey) (x : EdgeRec), g'.edges[k]? = some x ↔
+        k.1 ≠ a ∧ k.2 ≠ a ∧ (g.edges[k]? = some x ∨ (k.2 = b ∧ g.edges[(k.1, a)]? = some x) ∨
+          (k.1 = b ∧ g.edges[(a, k.2)]? = some x)) := by
+  obtain ⟨rb, _, _, h1, h2, _, h3⟩ := rename_ok_full hw hr h hlag
+  exact ⟨rb, h1, h2, h3⟩
 
 /-- the node record built for `b` from the record of `a`, and the one built for `a` from that: the original again.
     Plain class: the constructor leaves `var` / `lag` at their defaults, so the original record must have them there
@@ -555,5 +571,584 @@ theorem rename_back_edges {g g' g'' : Graph} (hw : WF g) {a b : String} (ha : a 
       · subst e2
         exact .inr (.inl ⟨rfl, e1, hab.symm, .inr (.inl ⟨trivial, h⟩)⟩)
       · exact .inl ⟨e1, e2, .inl h⟩
+
+/-! ### graphs that differ by a renaming of the nodes
+
+Used for one thing: the way back of a rename (`b ↦ a`) runs through states that are the states of the way there
+(`a ↦ b`) with the two names swapped, so every check that passed on the way there passes on the way back. -/
+
+/-- `σ` is an involution on names and `g2` is `g1` with every name `u` replaced by `σ u`, as far as the edge
+    mutators can see (class, node membership, lags in the time-series class, edges) -/
+structure Iso (σ : String → String) (g1 g2 : Graph) : Prop where
+  inv : ∀ u : String, σ (σ u) = u
+  cls : g2.cls = g1.cls
+  nodes : ∀ u : String, u ∈ g2.nodes ↔ σ u ∈ g1.nodes
+  lag : g1.cls = .ts → ∀ u : String, g2.lagOf u = g1.lagOf (σ u)
+  edges : ∀ u w : String, g2.edges[(u, w)]? = g1.edges[(σ u, σ w)]?
+
+namespace Iso
+variable {σ : String → String} {g1 g2 : Graph}
+
+theorem inj (h : Iso σ g1 g2) {u w : String} (e : σ u = σ w) : u = w := by
+  rw [← h.inv u, e, h.inv]
+
+theorem mem_edges (h : Iso σ g1 g2) (u w : String) : (u, w) ∈ g2.edges ↔ (σ u, σ w) ∈ g1.edges := by
+  rw [ExtTreeMap.mem_iff_isSome_getElem?, ExtTreeMap.mem_iff_isSome_getElem?, h.edges]
+
+theorem mem_edges' (h : Iso σ g1 g2) (u w : String) : (σ u, σ w) ∈ g2.edges ↔ (u, w) ∈ g1.edges := by
+  rw [h.mem_edges, h.inv, h.inv]
+
+theorem mem_nodes' (h : Iso σ g1 g2) (u : String) : σ u ∈ g2.nodes ↔ u ∈ g1.nodes := by
+  rw [h.nodes, h.inv]
+
+theorem rel (h : Iso σ g1 g2) (u w : String) : Rel g2.dirEdges u w ↔ Rel g1.dirEdges (σ u) (σ w) := by
+  rw [rel_dirEdges, rel_dirEdges, h.edges]
+
+theorem tc (h : Iso σ g1 g2) {u w : String} (ht : TC (Rel g2.dirEdges) u w) :
+    TC (Rel g1.dirEdges) (σ u) (σ w) := by
+  induction ht with
+  | single hab => exact .single ((h.rel _ _).mp hab)
+  | tail _ hbc ih => exact .tail ih ((h.rel _ _).mp hbc)
+
+theorem tc' (h : Iso σ g1 g2) {u w : String} (ht : TC (Rel g1.dirEdges) u w) :
+    TC (Rel g2.dirEdges) (σ u) (σ w) := by
+  induction ht with
+  | single hab => exact .single ((h.rel _ _).mpr (by rw [h.inv, h.inv]; exact hab))
+  | tail _ hbc ih => exact .tail ih ((h.rel _ _).mpr (by rw [h.inv, h.inv]; exact hbc))
+
+/-- the cycle test of `_set_edge` gives the same answer on the renamed graph -/
+theorem selfDep (h : Iso σ g1 g2) (u : String) : selfDepR g2.dirEdges (σ u) = selfDepR g1.dirEdges u := by
+  rw [Bool.eq_iff_iff, selfDepR_iff, selfDepR_iff]
+  constructor
+  · intro ht
+    have := h.tc ht
+    rwa [h.inv] at this
+  · exact fun ht => h.tc' ht
+
+theorem insEdge (h : Iso σ g1 g2) (s d : String) (r : EdgeRec) :
+    Iso σ (g1.insEdge s d r) (g2.insEdge (σ s) (σ d) r) := by
+  refine ⟨h.inv, h.cls, h.nodes, h.lag, fun u w => ?_⟩
+  rw [getElem?_insEdge, getElem?_insEdge, h.edges]
+  by_cases e : (s, d) = (σ u, σ w)
+  · have e' : (σ s, σ d) = (u, w) := by
+      simp only [Prod.mk.injEq] at e ⊢
+      exact ⟨by rw [e.1, h.inv], by rw [e.2, h.inv]⟩
+    rw [if_pos e, if_pos e']
+  · have e' : ¬ (σ s, σ d) = (u, w) := by
+      simp only [Prod.mk.injEq] at e ⊢
+      rintro ⟨e1, e2⟩
+      exact e ⟨by rw [← e1, h.inv], by rw [← e2, h.inv]⟩
+    rw [if_neg e, if_neg e']
+
+theorem orient (h : Iso σ g1 g2) (s d : String) (ty : EdgeType) {k : EKey} (ho : orient g1 s d ty = .ok k) :
+    CG.orient g2 (σ s) (σ d) ty = .ok (σ k.1, σ k.2) := by
+  unfold CG.orient at ho ⊢
+  rw [h.cls]
+  cases hc : g1.cls with
+  | plain =>
+    simp only [hc] at ho ⊢
+    cases ho; rfl
+  | ts =>
+    simp only [hc] at ho ⊢
+    rw [h.lag hc, h.lag hc, h.inv, h.inv]
+    split at ho
+    · rename_i hlt
+      rw [if_pos hlt]
+      split at ho
+      · rename_i hty
+        rw [if_pos hty]
+        cases ho; rfl
+      · cases ho
+    · rename_i hlt
+      rw [if_neg hlt]
+      cases ho; rfl
+
+end Iso
+
+/-- `_set_edge` accepted, from its three checks -/
+theorem setEdge_of {g : Graph} {s d : String} {r : EdgeRec} {v : Bool} (h1 : (d, s) ∉ g.edges)
+    (h2 : (s, d) ∉ g.edges) (h3 : v = true → selfDepR (g.insEdge s d r).dirEdges d = false) :
+    setEdge g s d r v = .ok (g.insEdge s d r) := by
+  unfold setEdge
+  simp only [(hasEdge_false_iff g d s).mpr h1, (hasEdge_false_iff g s d).mpr h2, Bool.false_eq_true, if_false]
+  cases v with
+  | false => simp only [Bool.false_and, Bool.false_eq_true, if_false]
+  | true => simp only [h3 rfl, Bool.and_false, Bool.false_eq_true, if_false]
+
+/-- an accepted `add_edge` between existing nodes is accepted between their images in the renamed graph, and the
+    results are again renamings of each other -/
+theorem Iso.addEdge {σ : String → String} {g1 g2 r1 : Graph} (h : Iso σ g1 g2) {s d : String} (hs : s ∈ g1.nodes)
+    (hd : d ∈ g1.nodes) {ty : EdgeType} {md : Meta} {v : Bool} (hadd : addEdge g1 s d ty md v = .ok r1) :
+    r1.nodes = g1.nodes ∧ ∃ r2, CG.addEdge g2 (σ s) (σ d) ty md v = .ok r2 ∧ Iso σ r1 r2 := by
+  have hsd : s ≠ d := by
+    intro e
+    subst e
+    unfold CG.addEdge addEdgeE at hadd
+    simp only [if_true] at hadd
+    cases hadd
+  rw [C03.addEdge_of_mem hs hd hsd] at hadd
+  split at hadd
+  · cases hadd
+  rename_i hdup
+  cases ho : CG.orient g1 s d ty with
+  | error e => rw [ho] at hadd; cases hadd
+  | ok k =>
+    rw [ho] at hadd
+    simp only at hadd
+    obtain ⟨h1, h2, rfl, h4⟩ := setEdge_ok hadd
+    refine ⟨rfl, g2.insEdge (σ k.1) (σ k.2) ⟨ty, md⟩, ?_, h.insEdge _ _ _⟩
+    rw [C03.addEdge_of_mem ((h.mem_nodes' s).mpr hs) ((h.mem_nodes' d).mpr hd) (fun e => hsd (h.inj e))]
+    have hdup' : g2.hasEdge (σ s) (σ d) = false := by
+      rw [hasEdge_false_iff, h.mem_edges']
+      exact (hasEdge_false_iff _ _ _).mp (by simpa using hdup)
+    simp only [hdup', Bool.false_eq_true, if_false, h.orient s d ty ho]
+    refine setEdge_of (by rw [h.mem_edges']; exact h1) (by rw [h.mem_edges']; exact h2) (fun hv => ?_)
+    rw [(h.insEdge k.1 k.2 ⟨ty, md⟩).selfDep k.2]
+    exact h4 hv
+
+/-- the list a copy loop walks, with both end points of every key renamed -/
+def mapKeys (σ : String → String) (L : List (EKey × EdgeRec)) : List (EKey × EdgeRec) :=
+  L.map (fun kr => ((σ kr.1.1, σ kr.1.2), kr.2))
+
+/-- a copy loop that succeeds, succeeds on the renamed graph with the renamed list, and the results are renamings of
+    each other -/
+theorem Iso.copyEdges {σ : String → String} (new : String) (inb : Bool) :
+    ∀ (L : List (EKey × EdgeRec)) (g1 g2 r1 : Graph), Iso σ g1 g2 → new ∈ g1.nodes →
+      (∀ kr ∈ L, otherEnd inb kr.1 ∈ g1.nodes) → copyEdges new inb g1 L = .ok r1 →
+      r1.nodes = g1.nodes ∧ ∃ r2, CG.copyEdges (σ new) inb g2 (mapKeys σ L) = .ok r2 ∧ Iso σ r1 r2 := by
+  intro L
+  induction L with
+  | nil =>
+    intro g1 g2 r1 h _ _ hc
+    simp only [CG.copyEdges, Except.ok.injEq] at hc
+    subst hc
+    exact ⟨rfl, g2, rfl, h⟩
+  | cons kr rest ih =>
+    intro g1 g2 r1 h hnew hL hc
+    rw [copyEdges_cons] at hc
+    have ho := hL kr List.mem_cons_self
+    have hs : (newKey inb new kr.1).1 ∈ g1.nodes := by
+      cases inb
+      · exact hnew
+      · exact ho
+    have hd : (newKey inb new kr.1).2 ∈ g1.nodes := by
+      cases inb
+      · exact ho
+      · exact hnew
+    cases hadd : CG.addEdge g1 (newKey inb new kr.1).1 (newKey inb new kr.1).2 kr.2.ty kr.2.md true with
+    | error e => rw [hadd] at hc; cases hc
+    | ok m1 =>
+      rw [hadd] at hc
+      simp only at hc
+      obtain ⟨hn, m2, hadd2, hiso⟩ := h.addEdge hs hd hadd
+      obtain ⟨hn', r2, hc2, hiso2⟩ := ih m1 m2 r1 hiso (by rw [hn]; exact hnew)
+        (fun kr' hkr' => by rw [hn]; exact hL kr' (List.mem_cons_of_mem _ hkr')) hc
+      refine ⟨hn'.trans hn, r2, ?_, hiso2⟩
+      have hkey : newKey inb (σ new) (σ kr.1.1, σ kr.1.2) =
+          (σ (newKey inb new kr.1).1, σ (newKey inb new kr.1).2) := by
+        cases inb <;> rfl
+      show CG.copyEdges (σ new) inb g2 (((σ kr.1.1, σ kr.1.2), kr.2) :: mapKeys σ rest) = _
+      rw [copyEdges_cons, hkey, hadd2]
+      exact hc2
+
+/-! ### the lists the copy loops walk, in the renamed graph -/
+
+/-- two lists sorted by a strict order with the same members are equal -/
+theorem sorted_ext {α : Type} {lt : α → α → Prop} (irr : ∀ a, ¬ lt a a) (asym : ∀ a b, lt a b → lt b a → False)
+    {l₁ l₂ : List α} (h₁ : l₁.Pairwise lt) (h₂ : l₂.Pairwise lt) (hm : ∀ x, x ∈ l₁ ↔ x ∈ l₂) : l₁ = l₂ := by
+  have n₁ : l₁.Nodup := h₁.imp (fun h e => by subst e; exact irr _ h)
+  have n₂ : l₂.Nodup := h₂.imp (fun h e => by subst e; exact irr _ h)
+  exact List.Perm.eq_of_pairwise (le := lt) (fun a b _ _ hab hba => (asym a b hab hba).elim) h₁ h₂
+    ((List.perm_ext_iff_of_nodup n₁ n₂).mpr hm)
+
+/-- the order of `get_edges`: by stored key -/
+def keyLt (p q : EKey × EdgeRec) : Prop := ekCmp p.1 q.1 = .lt
+
+theorem keyLt_irr (p : EKey × EdgeRec) : ¬ keyLt p p := by
+  unfold keyLt
+  rw [(ekCmp_eq_iff p.1 p.1).mpr rfl]
+  exact fun h => by cases h
+
+theorem keyLt_asym (p q : EKey × EdgeRec) (h1 : keyLt p q) (h2 : keyLt q p) : False := by
+  unfold keyLt at h1 h2
+  have h3 : ekCmp p.1 q.1 = (ekCmp q.1 p.1).swap := OrientedCmp.eq_swap
+  rw [h1, h2] at h3
+  cases h3
+
+theorem ekCmp_same_snd (x y m m' : String) : ekCmp (x, m) (y, m) = ekCmp (x, m') (y, m') := by
+  show (compare x y).then (compare m m) = (compare x y).then (compare m' m')
+  rw [compare_eq_iff_eq.mpr (rfl : m = m), compare_eq_iff_eq.mpr (rfl : m' = m')]
+
+theorem ekCmp_same_fst (x y m m' : String) : ekCmp (m, x) (m, y) = ekCmp (m', x) (m', y) := by
+  show (compare m m).then (compare x y) = (compare m' m').then (compare x y)
+  rw [compare_eq_iff_eq.mpr (rfl : m = m), compare_eq_iff_eq.mpr (rfl : m' = m')]
+
+theorem edgesTo_sorted (g : Graph) (n : String) : (g.edgesTo n).Pairwise keyLt := by
+  unfold Graph.edgesTo Graph.edgeList
+  exact List.Pairwise.filter _ ExtTreeMap.ordered_keys_toList
+
+theorem edgesFrom_sorted (g : Graph) (n : String) : (g.edgesFrom n).Pairwise keyLt := by
+  unfold Graph.edgesFrom Graph.edgeList
+  exact List.Pairwise.filter _ ExtTreeMap.ordered_keys_toList
+
+/-- the inbound list of `σ n` in the renamed graph is the renamed inbound list of `n`, provided the renaming fixes the
+    sources on that list (so that the sorted order is the same) -/
+theorem Iso.edgesTo {σ : String → String} {g1 g2 : Graph} (h : Iso σ g1 g2) (n : String)
+    (hfix : ∀ kr ∈ g1.edgesTo n, σ kr.1.1 = kr.1.1) : g2.edgesTo (σ n) = mapKeys σ (g1.edgesTo n) := by
+  refine sorted_ext keyLt_irr keyLt_asym (edgesTo_sorted g2 _) ?_ ?_
+  · unfold mapKeys
+    rw [List.pairwise_map]
+    refine List.Pairwise.imp_of_mem ?_ (edgesTo_sorted g1 n)
+    rintro ⟨⟨x, m⟩, r⟩ ⟨⟨y, m'⟩, r'⟩ hp hq hlt
+    have e1 := hfix _ hp
+    have e2 := hfix _ hq
+    have e3 := ((mem_edgesTo g1 n _ _).mp hp).2
+    have e4 := ((mem_edgesTo g1 n _ _).mp hq).2
+    simp only at e1 e2 e3 e4
+    unfold keyLt at hlt ⊢
+    simp only at hlt ⊢
+    rw [e3, e4] at hlt
+    rw [e1, e2, e3, e4, ekCmp_same_snd x y (σ n) n]
+    exact hlt
+  · rintro ⟨⟨u, w⟩, x⟩
+    unfold mapKeys
+    rw [mem_edgesTo, List.mem_map]
+    constructor
+    · rintro ⟨h1, h2⟩
+      simp only at h2
+      subst h2
+      rw [h.edges, h.inv] at h1
+      exact ⟨((σ u, n), x), (mem_edgesTo g1 n _ _).mpr ⟨h1, rfl⟩, by simp only [h.inv]⟩
+    · rintro ⟨⟨⟨u', w'⟩, x'⟩, hm, he⟩
+      obtain ⟨h1, h2⟩ := (mem_edgesTo g1 n _ _).mp hm
+      simp only [Prod.mk.injEq] at he h2
+      obtain ⟨⟨rfl, rfl⟩, rfl⟩ := he
+      subst h2
+      exact ⟨by rw [h.edges, h.inv, h.inv]; exact h1, rfl⟩
+
+theorem Iso.edgesFrom {σ : String → String} {g1 g2 : Graph} (h : Iso σ g1 g2) (n : String)
+    (hfix : ∀ kr ∈ g1.edgesFrom n, σ kr.1.2 = kr.1.2) : g2.edgesFrom (σ n) = mapKeys σ (g1.edgesFrom n) := by
+  refine sorted_ext keyLt_irr keyLt_asym (edgesFrom_sorted g2 _) ?_ ?_
+  · unfold mapKeys
+    rw [List.pairwise_map]
+    refine List.Pairwise.imp_of_mem ?_ (edgesFrom_sorted g1 n)
+    rintro ⟨⟨m, x⟩, r⟩ ⟨⟨m', y⟩, r'⟩ hp hq hlt
+    have e1 := hfix _ hp
+    have e2 := hfix _ hq
+    have e3 := ((mem_edgesFrom g1 n _ _).mp hp).2
+    have e4 := ((mem_edgesFrom g1 n _ _).mp hq).2
+    simp only at e1 e2 e3 e4
+    unfold keyLt at hlt ⊢
+    simp only at hlt ⊢
+    rw [e3, e4] at hlt
+    rw [e1, e2, e3, e4, ekCmp_same_fst x y (σ n) n]
+    exact hlt
+  · rintro ⟨⟨u, w⟩, x⟩
+    unfold mapKeys
+    rw [mem_edgesFrom, List.mem_map]
+    constructor
+    · rintro ⟨h1, h2⟩
+      simp only at h2
+      subst h2
+      rw [h.edges, h.inv] at h1
+      exact ⟨((n, σ w), x), (mem_edgesFrom g1 n _ _).mpr ⟨h1, rfl⟩, by simp only [h.inv]⟩
+    · rintro ⟨⟨⟨u', w'⟩, x'⟩, hm, he⟩
+      obtain ⟨h1, h2⟩ := (mem_edgesFrom g1 n _ _).mp hm
+      simp only [Prod.mk.injEq] at he h2
+      obtain ⟨⟨rfl, rfl⟩, rfl⟩ := he
+      subst h2
+      exact ⟨by rw [h.edges, h.inv, h.inv]; exact h1, rfl⟩
+
+/-! ### the way back of a rename is accepted -/
+
+/-- exchange two names -/
+def swap (a b u : String) : String := if u = a then b else if u = b then a else u
+
+theorem swap_inv (a b u : String) : swap a b (swap a b u) = u := by
+  unfold swap
+  grind
+
+theorem swap_left (a b : String) : swap a b a = b := by simp [swap]
+theorem swap_right (a b : String) : swap a b b = a := by
+  unfold swap
+  grind
+theorem swap_other {a b u : String} (h1 : u ≠ a) (h2 : u ≠ b) : swap a b u = u := by simp [swap, h1, h2]
+
+/-- `replace_node(a, b, …)` accepted, from its parts -/
+theorem replaceNodeBase_some_of {g : Graph} {a b : String} {r rb : NodeRec} {g2 g3 : Graph}
+    (hr : g.nodes[a]? = some r) {vt? : Option VType} {m? : Option Meta} (hnb : b ∉ g.nodes)
+    (hrb : mkNode g.cls b (vt?.getD r.vtype) (m?.getD r.md) = .ok rb)
+    (hg2 : copyEdges b true (g.insNode b rb) ((g.insNode b rb).edgesTo a) = .ok g2)
+    (hg3 : copyEdges b false g2 (g2.edgesFrom a) = .ok g3) :
+    replaceNodeBase g a (some b) vt? m? = .ok (g3.delNodeRaw a) := by
+  unfold replaceNodeBase
+  simp only [hr, (hasNode_false_iff g b).mpr hnb, Bool.false_eq_true, if_false, addNode_of_fresh hnb hrb, bind,
+    Except.bind, hg2, hg3, pure, Except.pure]
+
+/-- the state after the first write of the way back (`g'` plus a bare `a`) is the state after the first write of the
+    way there (`g` plus a bare `b`) with `a` and `b` exchanged -/
+theorem iso_rename_start {g g' : Graph} (hw : WF g) {a b : String} {r rb ra : NodeRec} (hr : g.nodes[a]? = some r)
+    (hnb : b ∉ g.nodes) (hcls : g'.cls = g.cls) (hn' : g'.nodes = (g.nodes.insert b rb).erase a)
+    (he' : ∀ (k : EKey) (x : EdgeRec), g'.edges[k]? = some x ↔
+        k.1 ≠ a ∧ k.2 ≠ a ∧ (g.edges[k]? = some x ∨ (k.2 = b ∧ g.edges[(k.1, a)]? = some x) ∨
+          (k.1 = b ∧ g.edges[(a, k.2)]? = some x)))
+    (hlb : g.cls = .ts → rb.lag = r.lag) (hla : g.cls = .ts → ra.lag = r.lag) :
+    Iso (swap a b) (g.insNode b rb) (g'.insNode a ra) := by
+  have ha : a ∈ g.nodes := mem_of_get hr
+  have hab : a ≠ b := fun e => hnb (e ▸ ha)
+  have hfresh : ∀ (u w : String) (y : EdgeRec), g.edges[(u, w)]? = some y → u ≠ b ∧ w ≠ b := by
+    intro u w y hy
+    have := hw.ends u w (emem_of_get hy)
+    exact ⟨fun e => hnb (e ▸ this.1), fun e => hnb (e ▸ this.2)⟩
+  have hloop : ∀ (u : String) (y : EdgeRec), g.edges[(u, u)]? ≠ some y := fun u y hy => hw.noLoop u (emem_of_get hy)
+  have hget' : ∀ u : String, g'.nodes[u]? = if a = u then none else if b = u then some rb else g.nodes[u]? := by
+    intro u
+    rw [hn']
+    simp only [ExtTreeMap.getElem?_erase, ExtTreeMap.getElem?_insert, compare_eq_iff_eq]
+  refine ⟨swap_inv a b, hcls, fun u => ?_, fun hc u => ?_, fun u w => ?_⟩
+  · -- nodes
+    rw [mem_insNode, mem_insNode, mem_nodes_iff g' u, hget' u]
+    by_cases hua : u = a
+    · subst hua
+      rw [swap_left]
+      exact ⟨fun _ => .inl rfl, fun _ => .inl rfl⟩
+    · by_cases hub : u = b
+      · subst hub
+        rw [swap_right, if_neg (fun e => hua e.symm), if_pos rfl]
+        exact ⟨fun _ => .inr ha, fun _ => .inr ⟨rb, rfl⟩⟩
+      · rw [swap_other hua hub, if_neg (fun e => hua e.symm), if_neg (fun e => hub e.symm), ← mem_nodes_iff]
+        constructor
+        · rintro (e | h)
+          · exact absurd e.symm hua
+          · exact .inr h
+        · rintro (e | h)
+          · exact absurd e.symm hub
+          · exact .inr h
+  · -- lags (time-series class)
+    have hcg : g.cls = .ts := hc
+    rw [lagOf_insNode, lagOf_insNode]
+    by_cases hua : u = a
+    · subst hua
+      rw [swap_left, if_pos rfl, if_pos rfl, hla hcg, hlb hcg]
+    · by_cases hub : u = b
+      · subst hub
+        rw [swap_right, if_neg (fun e => hua e.symm), if_neg (fun e => hua e)]
+        unfold Graph.lagOf
+        rw [hget', if_neg (fun e => hua e.symm), if_pos rfl, hr]
+        simp only [Option.map_some, Option.getD_some]
+        exact hlb hcg
+      · rw [swap_other hua hub, if_neg (fun e => hua e.symm), if_neg (fun e => hub e.symm)]
+        unfold Graph.lagOf
+        rw [hget', if_neg (fun e => hua e.symm), if_neg (fun e => hub e.symm)]
+  · -- edges
+    rw [insNode_edges, insNode_edges]
+    apply Option.ext
+    intro x
+    rw [he' (u, w) x]
+    simp only []
+    by_cases hua : u = a
+    · subst hua
+      rw [swap_left]
+      constructor
+      · rintro ⟨h, _⟩; exact absurd rfl h
+      · intro h; exact absurd rfl (hfresh _ _ _ h).1
+    by_cases hwa : w = a
+    · subst hwa
+      rw [swap_left]
+      constructor
+      · rintro ⟨_, h, _⟩; exact absurd rfl h
+      · intro h; exact absurd rfl (hfresh _ _ _ h).2
+    by_cases hub : u = b
+    · subst hub
+      rw [swap_right]
+      by_cases hwb : w = u
+      · subst hwb
+        rw [swap_right]
+        constructor
+        · rintro ⟨_, _, h | ⟨_, h⟩ | ⟨_, h⟩⟩
+          · exact absurd rfl (hfresh _ _ _ h).1
+          · exact absurd rfl (hfresh _ _ _ h).1
+          · exact absurd rfl (hfresh _ _ _ h).2
+        · intro h; exact absurd h (hloop _ _)
+      · rw [swap_other hwa hwb]
+        constructor
+        · rintro ⟨_, _, h | ⟨e, _⟩ | ⟨_, h⟩⟩
+          · exact absurd rfl (hfresh _ _ _ h).1
+          · exact absurd e hwb
+          · exact h
+        · intro h; exact ⟨hua, hwa, .inr (.inr ⟨rfl, h⟩)⟩
+    · rw [swap_other hua hub]
+      by_cases hwb : w = b
+      · subst hwb
+        rw [swap_right]
+        constructor
+        · rintro ⟨_, _, h | ⟨_, h⟩ | ⟨e, _⟩⟩
+          · exact absurd rfl (hfresh _ _ _ h).2
+          · exact h
+          · exact absurd e hub
+        · intro h; exact ⟨hua, hwa, .inr (.inl ⟨rfl, h⟩)⟩
+      · rw [swap_other hwa hwb]
+        constructor
+        · rintro ⟨_, _, h | ⟨e, _⟩ | ⟨e, _⟩⟩
+          · exact h
+          · exact absurd e hwb
+          · exact absurd e hub
+        · intro h; exact ⟨hua, hwa, .inl h⟩
+
+/-- **the way back is accepted whenever the way there was** (any variable type / metadata arguments; the side
+    condition is the one of `rename_ok_spec`: in the time-series class the new name has the lag of the old one).
+    Every check of the way back — duplicate, reverse edge, orientation against time, directed cycle through the
+    destination — is a check that passed on the way there, in the state with `a` and `b` exchanged. -/
+theorem rename_back_accepted {g g' : Graph} (hw : WF g) {a b : String} {r : NodeRec} (hr : g.nodes[a]? = some r)
+    {vt1 : Option VType} {m1 : Option Meta} (h1 : replaceNodeBase g a (some b) vt1 m1 = .ok g')
+    (hlag : g.cls = .ts → ∀ rb, mkNode g.cls b (vt1.getD r.vtype) (m1.getD r.md) = .ok rb → rb.lag = r.lag)
+    (vt2 : Option VType) (m2 : Option Meta) : ∃ g'', replaceNodeBase g' b (some a) vt2 m2 = .ok g'' := by
+  obtain ⟨rb, g2, g3, hrb, hnb, ⟨hg2, hg3, _, hw2, hn2, he2⟩, hw', hc', _, hn', he'⟩ := rename_ok_full hw hr h1 hlag
+  have ha : a ∈ g.nodes := mem_of_get hr
+  have hab : a ≠ b := fun e => hnb (e ▸ ha)
+  have hrb' : g'.nodes[b]? = some rb := by
+    simp [hn', hab]
+  have hna' : a ∉ g'.nodes := by
+    rw [hn', ExtTreeMap.mem_erase]
+    exact fun h => h.1 (compare_eq_iff_eq.mpr rfl)
+  have hparse : g.cls = .ts → Name.parse a = some (r.var, r.lag) := fun hc => (hw.tsName hc a r hr).1
+  obtain ⟨ra, hra⟩ : ∃ ra, mkNode g'.cls a (vt2.getD rb.vtype) (m2.getD rb.md) = .ok ra :=
+    mkNode_accepted g'.cls (fun hc => by rw [hparse (hc' ▸ hc)]; rfl) _ _
+  have hla : g.cls = .ts → ra.lag = r.lag := by
+    intro hc
+    have h3 := (C03.mkNode_ts hra (hc'.trans hc)).1
+    rw [hparse hc] at h3
+    simp only [Option.some.injEq, Prod.mk.injEq] at h3
+    exact h3.2.symm
+  have hw1 : WF (g.insNode b rb) := C03.wf_insNode_fresh hw hnb (C03.mkNode_ts hrb)
+  have iso0 : Iso (swap a b) (g.insNode b rb) (g'.insNode a ra) :=
+    iso_rename_start hw hr hnb hc' hn' he' (fun hc => hlag hc rb hrb) hla
+  have hbmem : b ∈ (g.insNode b rb).nodes := (mem_insNode g b b rb).mpr (.inl rfl)
+  have hne_of_mem : ∀ x : String, x ∈ g.nodes → x ≠ b := fun x hx e => hnb (e ▸ hx)
+  -- inbound loop
+  have hL1 : ∀ kr ∈ (g.insNode b rb).edgesTo a, otherEnd true kr.1 ∈ (g.insNode b rb).nodes := by
+    rintro ⟨k, x⟩ hkr
+    obtain ⟨h3, _⟩ := (mem_edgesTo _ a k x).mp hkr
+    exact (hw1.ends k.1 k.2 (emem_of_get h3)).1
+  have hfix1 : ∀ kr ∈ (g.insNode b rb).edgesTo a, swap a b kr.1.1 = kr.1.1 := by
+    rintro ⟨k, x⟩ hkr
+    obtain ⟨h3, h4⟩ := (mem_edgesTo _ a k x).mp hkr
+    have hmem : (k.1, k.2) ∈ g.edges := emem_of_get (g := g) h3
+    refine swap_other (fun e => ?_) (hne_of_mem _ (hw.ends k.1 k.2 hmem).1)
+    have e' : k.1 = a := e
+    have h4' : k.2 = a := h4
+    rw [e', h4'] at hmem
+    exact hw.noLoop a hmem
+  obtain ⟨_, g2', hg2', iso2⟩ := Iso.copyEdges b true _ _ _ _ iso0 hbmem hL1 hg2
+  rw [swap_right, ← iso0.edgesTo a hfix1, swap_left] at hg2'
+  -- outbound loop
+  have hbmem2 : b ∈ g2.nodes := by rw [hn2]; exact hbmem
+  have hL2 : ∀ kr ∈ g2.edgesFrom a, otherEnd false kr.1 ∈ g2.nodes := by
+    rintro ⟨k, x⟩ hkr
+    obtain ⟨h3, _⟩ := (mem_edgesFrom _ a k x).mp hkr
+    exact (hw2.ends k.1 k.2 (emem_of_get h3)).2
+  have hfix2 : ∀ kr ∈ g2.edgesFrom a, swap a b kr.1.2 = kr.1.2 := by
+    rintro ⟨k, x⟩ hkr
+    obtain ⟨h3, h4⟩ := (mem_edgesFrom _ a k x).mp hkr
+    have h5 : g.edges[k]? = some x := by
+      rcases (he2 k x).mp h3 with h5 | ⟨_, h5⟩
+      · exact h5
+      · rw [h4] at h5
+        exact absurd (emem_of_get h5) (hw.noLoop a)
+    have hmem : (k.1, k.2) ∈ g.edges := emem_of_get (g := g) h5
+    refine swap_other (fun e => ?_) (hne_of_mem _ (hw.ends k.1 k.2 hmem).2)
+    have e' : k.2 = a := e
+    rw [e', h4] at hmem
+    exact hw.noLoop a hmem
+  obtain ⟨_, g3', hg3', _⟩ := Iso.copyEdges b false _ _ _ _ iso2 hbmem2 hL2 hg3
+  rw [swap_right, ← iso2.edgesFrom a hfix2, swap_left] at hg3'
+  exact ⟨_, replaceNodeBase_some_of hrb' hna' hra hg2' hg3'⟩
+
+/-! ### ghosts: nodes from a set of fresh names, and edges that touch them, come and go -/
+
+/-- `g` is `g0` outside the ghost names `F`: same class and graph metadata, same record for every node that is not a
+    ghost, same record at every edge key that touches no ghost -/
+structure Ghost (F : String → Prop) (g0 g : Graph) : Prop where
+  cls : g.cls = g0.cls
+  gmeta : g.gmeta = g0.gmeta
+  nodesOut : ∀ n : String, ¬ F n → g.nodes[n]? = g0.nodes[n]?
+  edgesOut : ∀ k : EKey, ¬ F k.1 → ¬ F k.2 → g.edges[k]? = g0.edges[k]?
+
+namespace Ghost
+variable {F : String → Prop} {g0 g : Graph}
+
+theorem refl (F : String → Prop) (g0 : Graph) : Ghost F g0 g0 := ⟨rfl, rfl, fun _ _ => rfl, fun _ _ _ => rfl⟩
+
+theorem mem_of_mem0 (h : Ghost F g0 g) {n : String} (hF : ¬ F n) (hn : n ∈ g0.nodes) : n ∈ g.nodes := by
+  rw [mem_nodes_iff, h.nodesOut n hF, ← mem_nodes_iff]; exact hn
+
+theorem insNode (h : Ghost F g0 g) {n : String} (hF : F n) (r : NodeRec) : Ghost F g0 (g.insNode n r) := by
+  refine ⟨h.cls, h.gmeta, fun m hm => ?_, h.edgesOut⟩
+  rw [getElem?_insNode, if_neg (fun (e : n = m) => hm (e ▸ hF))]
+  exact h.nodesOut m hm
+
+theorem insEdge (h : Ghost F g0 g) {s d : String} (hF : F s ∨ F d) (r : EdgeRec) : Ghost F g0 (g.insEdge s d r) := by
+  refine ⟨h.cls, h.gmeta, h.nodesOut, fun k h1 h2 => ?_⟩
+  rw [getElem?_insEdge, if_neg]
+  · exact h.edgesOut k h1 h2
+  · rintro rfl
+    rcases hF with e | e
+    · exact h1 e
+    · exact h2 e
+
+theorem delEdgeRaw (h : Ghost F g0 g) {s d : String} (hF : F s ∨ F d) : Ghost F g0 (g.delEdgeRaw s d) := by
+  refine ⟨h.cls, h.gmeta, h.nodesOut, fun k h1 h2 => ?_⟩
+  rw [getElem?_delEdgeRaw, if_neg]
+  · exact h.edgesOut k h1 h2
+  · rintro rfl
+    rcases hF with e | e
+    · exact h1 e
+    · exact h2 e
+
+theorem delNodeRaw (h : Ghost F g0 g) {n : String} (hF : F n) : Ghost F g0 (g.delNodeRaw n) := by
+  refine ⟨h.cls, h.gmeta, fun m hm => ?_, fun k h1 h2 => ?_⟩
+  · rw [getElem?_delNodeRaw_nodes, if_neg (fun (e : n = m) => hm (e ▸ hF))]
+    exact h.nodesOut m hm
+  · rw [getElem?_delNodeRaw_edges, if_neg]
+    · exact h.edgesOut k h1 h2
+    · rintro (e | e)
+      · exact h1 (e ▸ hF)
+      · exact h2 (e ▸ hF)
+
+/-- an implicitly created end point is a ghost, when every end point is a ghost or a node of `g0` -/
+theorem ensureNode (h : Ghost F g0 g) {e : Endpoint} {g1 : Graph} (he : F e.id ∨ e.id ∈ g0.nodes)
+    (h1 : CG.ensureNode g e = .ok g1) : Ghost F g0 g1 := by
+  rcases ensureNode_ok h1 with ⟨rfl, _⟩ | ⟨r, hn, _, rfl⟩
+  · exact h
+  · refine h.insNode ?_ r
+    rcases he with hF | hm
+    · exact hF
+    · exact Classical.byContradiction (fun hF => hn (h.mem_of_mem0 hF hm))
+
+/-- when no ghost is left, the graph is `g0` again -/
+theorem eq_of_gone (h : Ghost F g0 g) (hw0 : WF g0) (hw : WF g) (hfresh : ∀ n, F n → n ∉ g0.nodes)
+    (hgone : ∀ n, F n → n ∉ g.nodes) : g = g0 := by
+  have key : ∀ (x : Graph), WF x → (∀ n, F n → n ∉ x.nodes) → ∀ k : EKey, (F k.1 ∨ F k.2) → x.edges[k]? = none := by
+    intro x hx hno k hk
+    apply ExtTreeMap.getElem?_eq_none
+    intro hm
+    have := hx.ends k.1 k.2 hm
+    rcases hk with e | e
+    · exact hno _ e this.1
+    · exact hno _ e this.2
+  apply C03.graph_ext h.cls
+  · apply ExtTreeMap.ext_getElem?
+    intro n
+    by_cases hF : F n
+    · rw [ExtTreeMap.getElem?_eq_none (hgone n hF), ExtTreeMap.getElem?_eq_none (hfresh n hF)]
+    · exact h.nodesOut n hF
+  · apply ExtTreeMap.ext_getElem?
+    intro k
+    by_cases hk : F k.1 ∨ F k.2
+    · rw [key g hw hgone k hk, key g0 hw0 hfresh k hk]
+    · exact h.edgesOut k (fun e => hk (.inl e)) (fun e => hk (.inr e))
+  · exact h.gmeta
+
+end Ghost
 
 end CG.Detours
